@@ -477,7 +477,12 @@ pub fn register_upvalue<T>(
                 // if there is an existing upvalue to this location reuse that
                 c.upvalues.push(NonNull::new_unchecked(upvalue));
             } else {
-                let upvalue = vm.init_upvalue(location)?;
+                let next_upvalue = upvalue;
+                let mut upvalue = vm.init_upvalue(location)?;
+                // the rest of the list follows the new upvalue
+                if let Some(u) = upvalue.as_upvalue_mut() {
+                    u.next = next_upvalue;
+                }
 
                 // keep the open upvalues sorted
                 match prev_upvalue.as_mut().and_then(|u| u.as_upvalue_mut()) {
